@@ -526,10 +526,14 @@ class BaseDAG(Generic[P, RVDAG]):
         if "nodes" in config:
             expanded_config = self._expand_config(config["nodes"])
             detect_duplicates(expanded_config)
+            # validate every entry before applying any: a refused config must leave the DAG untouched
+            new_nodes = []
             for node_id, conf_node in expanded_config:
                 node = self.get_node_by_id(node_id)
                 values = node._conf_to_values(conf_node)
-                self.exec_nodes.force_set(node_id, type(node)(**values))
+                new_nodes.append((node_id, type(node)(**values)))
+            for node_id, new_node in new_nodes:
+                self.exec_nodes.force_set(node_id, new_node)
 
         if "max_concurrency" in config:
             self.max_concurrency = config["max_concurrency"]
